@@ -35,6 +35,9 @@ pub enum QOp {
     Rebuild(Build),
     /// push and remove `n` orders under fresh reserved ids (leaves n dead tickets behind)
     Stale(u32),
+    /// produce (and drop) a rendering of the queue: 0 Debug, 1 text form, 2 JSON, 3 JSON into a
+    /// writer that fails after `limit` bytes, 4 serde_json::Value. None of them is a queue operation.
+    Render(u8, u16),
 }
 
 #[derive(Clone, Debug, PartialEq, Eq, Hash, Serialize, Deserialize)]
@@ -58,6 +61,7 @@ fn qcase(max_len: usize) -> BoxedStrategy<QCase> {
         2 => Just(QOp::ToVec),
         2 => proptest::sample::select(vec![Build::FromVec, Build::From, Build::Text, Build::Json]).prop_map(QOp::Rebuild),
         1 => gen::size_class(17).prop_map(QOp::Stale),
+        3 => (0u8..5, any::<u16>()).prop_map(|(k, l)| QOp::Render(k, l)),
     ];
     (gen::id_pool(3, 8), proptest::collection::vec(op, 0..=max_len))
         .prop_map(|(pool, ops)| QCase { pool, ops })
@@ -179,6 +183,32 @@ pub fn eval(c: &QCase, st: &mut Stats, excuse_kf: bool) -> Result<Outcome, Strin
                         v.iter().map(brief).collect::<Vec<_>>().join(", "),
                         model.iter().map(brief).collect::<Vec<_>>().join(", ")
                     ));
+                }
+            }
+            QOp::Render(k, limit) => {
+                st.count("queue_op/render");
+                let r = catch(|| match k % 5 {
+                    0 => {
+                        let _ = format!("{:?}", q);
+                    }
+                    1 => {
+                        let _ = q.to_string();
+                    }
+                    2 => {
+                        let _ = serde_json::to_string(&q);
+                    }
+                    3 => {
+                        // (the limit is scaled to the size of the full encoding)
+                        let full = serde_json::to_string(&q).map(|t| t.len()).unwrap_or(0);
+                        let lim = (*limit as usize * (full + 1)) >> 16;
+                        let _ = serde_json::to_writer(crate::checks::codec::FailingWriter { limit: lim }, &q);
+                    }
+                    _ => {
+                        let _ = serde_json::to_value(&q);
+                    }
+                });
+                if let Err(m) = r {
+                    return fail(format!("rendering the queue panicked: {m}"));
                 }
             }
             QOp::Stale(n) => {
